@@ -10,6 +10,7 @@ import (
 	"strconv"
 	"strings"
 
+	"github.com/ProtonMail/go-crypto/openpgp"
 	"github.com/ProtonMail/go-crypto/openpgp/armor"
 	"github.com/ProtonMail/go-crypto/openpgp/packet"
 	gogit "github.com/go-git/go-git/v5"
@@ -247,7 +248,15 @@ func Build(dir string, keys Keys, history []string, pos Position, signer string,
 		signKey = keys[inForce[0]]
 		out.SignedBy = inForce[0]
 	default:
-		return nil, fmt.Errorf("unknown signer %s", signer)
+		if !strings.HasPrefix(signer, "raw:") {
+			return nil, fmt.Errorf("unknown signer %s", signer)
+		}
+		if len(inForce) == 0 {
+			out.Skip = "no key in force"
+			return out, nil
+		}
+		signKey = keys[inForce[0]]
+		out.SignedBy = inForce[0]
 	}
 	ref := "refs/bugs/" + b.Id().String()
 	tested := func() error {
@@ -309,6 +318,11 @@ func Build(dir string, keys Keys, history []string, pos Position, signer string,
 	}
 	if strings.HasPrefix(signer, "altered-") {
 		if err := alter(out, signer); err != nil {
+			return nil, err
+		}
+	}
+	if strings.HasPrefix(signer, "raw:") {
+		if err := rawAlter(out, strings.TrimPrefix(signer, "raw:"), keys); err != nil {
 			return nil, err
 		}
 	}
@@ -383,6 +397,186 @@ func join(repo *repository.GoGitRepo, out *Built, ref string, id entity.Id, alic
 	return repo.UpdateRef(ref, h)
 }
 
+// otherTree stores a valid pack tree that differs from the commit's: same entries, the operation
+// pack with other bytes (another comment text; for a join commit "ops":[] instead of null).
+func otherTree(r *gogit.Repository, c *object.Commit) (plumbing.Hash, error) {
+	tree, err := c.Tree()
+	if err != nil {
+		return plumbing.ZeroHash, err
+	}
+	nt := object.Tree{}
+	for _, e := range tree.Entries {
+		if e.Name == "ops" {
+			blob, err := r.BlobObject(e.Hash)
+			if err != nil {
+				return plumbing.ZeroHash, err
+			}
+			rd, _ := blob.Reader()
+			data, _ := io.ReadAll(rd)
+			rd.Close()
+			data = bytes.Replace(data, []byte("the tested commit"), []byte("the altered commit"), 1)
+			data = bytes.Replace(data, []byte(`"ops":null`), []byte(`"ops":[]`), 1) // join commit: still an empty pack, other bytes
+			o := r.Storer.NewEncodedObject()
+			o.SetType(plumbing.BlobObject)
+			w, _ := o.Writer()
+			w.Write(data)
+			w.Close()
+			h, err := r.Storer.SetEncodedObject(o)
+			if err != nil {
+				return plumbing.ZeroHash, err
+			}
+			e.Hash = h
+		}
+		nt.Entries = append(nt.Entries, e)
+	}
+	o := r.Storer.NewEncodedObject()
+	o.SetType(plumbing.TreeObject)
+	if err := nt.Encode(o); err != nil {
+		return plumbing.ZeroHash, err
+	}
+	return r.Storer.SetEncodedObject(o)
+}
+
+// RawAlterations of a validly signed commit, written as raw commit objects (the bytes are exactly
+// the ones chosen here): headers added after or before the gpgsig block, the block moved, bytes
+// appended to the message, a second gpgsig block.
+var RawAlterations = []string{
+	"extra-tree-after-gpgsig", "extra-parent-after-gpgsig", "extra-author-after-gpgsig", "extra-committer-after-gpgsig", "extra-unknown-after-gpgsig",
+	"extra-tree-before-gpgsig", "extra-parent-before-gpgsig", "extra-author-before-gpgsig", "extra-committer-before-gpgsig", "extra-unknown-before-gpgsig",
+	"moved-gpgsig-after-tree", "moved-gpgsig-first",
+	"message-appended",
+	"second-gpgsig-copy-after", "second-gpgsig-stranger-first", "second-gpgsig-stranger-after",
+}
+
+// RawUnsure says whether the reference rule leaves the class open (headers the decoded commit does
+// not use, position of the signature header): only "no crash" and "both readers agree" are required.
+func RawUnsure(class string) bool {
+	return strings.HasPrefix(class, "extra-unknown-") || strings.HasPrefix(class, "moved-gpgsig-")
+}
+
+// rawAlter replaces the tested (validly signed) commit by a hand-written commit object.
+func rawAlter(b *Built, class string, keys Keys) error {
+	r, err := gogit.PlainOpen(b.Dir)
+	if err != nil {
+		return err
+	}
+	h := plumbing.NewHash(string(b.Tested))
+	obj, err := r.Storer.EncodedObject(plumbing.CommitObject, h)
+	if err != nil {
+		return err
+	}
+	rd, err := obj.Reader()
+	if err != nil {
+		return err
+	}
+	raw, err := io.ReadAll(rd)
+	rd.Close()
+	if err != nil {
+		return err
+	}
+	start := bytes.Index(raw, []byte("\ngpgsig "))
+	if start < 0 {
+		return fmt.Errorf("tested commit carries no signature header")
+	}
+	end := start + bytes.Index(raw[start:], []byte("\n\n"))
+	pre, sig, tail := string(raw[:start]), string(raw[start:end]), string(raw[end:]) // tail = "\n\n" + message
+	c, err := r.CommitObject(h)
+	if err != nil {
+		return err
+	}
+	header := func(kind string) (string, error) {
+		switch kind {
+		case "tree":
+			th, err := otherTree(r, c)
+			return "\ntree " + th.String(), err
+		case "parent":
+			root := c
+			for len(root.ParentHashes) > 0 {
+				if root, err = r.CommitObject(root.ParentHashes[0]); err != nil {
+					return "", err
+				}
+			}
+			return "\nparent " + root.Hash.String(), nil
+		case "author":
+			return "\nauthor Mallory <mallory@example.org> 1 +0000", nil
+		case "committer":
+			return "\ncommitter Mallory <mallory@example.org> 1 +0000", nil
+		case "unknown":
+			return "\nx-c08-unknown-header some value", nil
+		}
+		return "", fmt.Errorf("unknown header kind %s", kind)
+	}
+	strangerBlock := func() (string, error) {
+		var buf bytes.Buffer
+		if err := openpgp.ArmoredDetachSign(&buf, keys["K3"].PGPEntity(), strings.NewReader(pre+tail), nil); err != nil {
+			return "", err
+		}
+		lines := strings.Split(strings.TrimSuffix(buf.String(), "\n"), "\n")
+		return "\ngpgsig " + strings.Join(lines, "\n "), nil
+	}
+	var out string
+	parts := strings.Split(class, "-")
+	switch {
+	case strings.HasPrefix(class, "extra-") && strings.HasSuffix(class, "-after-gpgsig"):
+		hd, err := header(parts[1])
+		if err != nil {
+			return err
+		}
+		out = pre + sig + hd + tail
+	case strings.HasPrefix(class, "extra-") && strings.HasSuffix(class, "-before-gpgsig"):
+		hd, err := header(parts[1])
+		if err != nil {
+			return err
+		}
+		out = pre + hd + sig + tail
+	case class == "moved-gpgsig-after-tree":
+		nl := strings.Index(pre, "\n")
+		if nl < 0 {
+			return fmt.Errorf("commit with a single header")
+		}
+		out = pre[:nl] + sig + pre[nl:] + tail
+	case class == "moved-gpgsig-first":
+		out = sig[1:] + "\n" + pre + tail
+	case class == "message-appended":
+		out = pre + sig + tail + "appended after signing\n"
+	case class == "second-gpgsig-copy-after":
+		out = pre + sig + sig + tail
+	case class == "second-gpgsig-stranger-first", class == "second-gpgsig-stranger-after":
+		sb, err := strangerBlock()
+		if err != nil {
+			return err
+		}
+		if class == "second-gpgsig-stranger-first" {
+			out = pre + sb + sig + tail
+		} else {
+			out = pre + sig + sb + tail
+		}
+	default:
+		return fmt.Errorf("unknown raw alteration %s", class)
+	}
+	o := r.Storer.NewEncodedObject()
+	o.SetType(plumbing.CommitObject)
+	w, err := o.Writer()
+	if err != nil {
+		return err
+	}
+	if _, err := w.Write([]byte(out)); err != nil {
+		return err
+	}
+	if err := w.Close(); err != nil {
+		return err
+	}
+	nh, err := r.Storer.SetEncodedObject(o)
+	if err != nil {
+		return err
+	}
+	if nh == h {
+		return fmt.Errorf("raw alteration %s left the commit unchanged", class)
+	}
+	b.Tested = repository.Hash(nh.String())
+	return r.Storer.SetReference(plumbing.NewHashReference(plumbing.ReferenceName("refs/bugs/"+b.Bug.String()), nh))
+}
+
 // alter rewrites the tested commit after it was signed, keeping the signature header: either its
 // tree (the comment text inside the operation pack) or its parent (the filler commit is skipped).
 func alter(b *Built, how string) error {
@@ -397,41 +591,7 @@ func alter(b *Built, how string) error {
 	n := *c
 	switch how {
 	case "altered-tree":
-		tree, err := c.Tree()
-		if err != nil {
-			return err
-		}
-		nt := object.Tree{}
-		for _, e := range tree.Entries {
-			if e.Name == "ops" {
-				blob, err := r.BlobObject(e.Hash)
-				if err != nil {
-					return err
-				}
-				rd, _ := blob.Reader()
-				data, _ := io.ReadAll(rd)
-				rd.Close()
-				data = bytes.Replace(data, []byte("the tested commit"), []byte("the altered commit"), 1)
-				data = bytes.Replace(data, []byte(`"ops":null`), []byte(`"ops":[]`), 1) // join commit: still an empty pack, other bytes
-				o := r.Storer.NewEncodedObject()
-				o.SetType(plumbing.BlobObject)
-				w, _ := o.Writer()
-				w.Write(data)
-				w.Close()
-				h, err := r.Storer.SetEncodedObject(o)
-				if err != nil {
-					return err
-				}
-				e.Hash = h
-			}
-			nt.Entries = append(nt.Entries, e)
-		}
-		o := r.Storer.NewEncodedObject()
-		o.SetType(plumbing.TreeObject)
-		if err := nt.Encode(o); err != nil {
-			return err
-		}
-		th, err := r.Storer.SetEncodedObject(o)
+		th, err := otherTree(r, c)
 		if err != nil {
 			return err
 		}
@@ -537,12 +697,8 @@ func KeysInForce(versions []Version, T uint64) []string {
 }
 
 // commitTime reads the edit clock of a commit from its tree.
-func commitTime(repo repository.RepoData, h repository.Hash) (uint64, error) {
-	c, err := repo.ReadCommit(h)
-	if err != nil {
-		return 0, err
-	}
-	entries, err := repo.ReadTree(c.TreeHash)
+func commitTime(repo repository.RepoData, treeHash repository.Hash) (uint64, error) {
+	entries, err := repo.ReadTree(treeHash)
 	if err != nil {
 		return 0, err
 	}
@@ -617,8 +773,8 @@ type Expected struct {
 }
 
 // packAuthor reads the author id of the operation pack of a commit.
-func packAuthor(repo repository.RepoData, c repository.Commit) (string, error) {
-	entries, err := repo.ReadTree(c.TreeHash)
+func packAuthor(repo repository.RepoData, treeHash repository.Hash) (string, error) {
+	entries, err := repo.ReadTree(treeHash)
 	if err != nil {
 		return "", err
 	}
@@ -653,6 +809,10 @@ func Expect(b *Built) (Expected, error) {
 	if err != nil {
 		return Expected{}, err
 	}
+	raw, err := gogit.PlainOpen(b.Dir)
+	if err != nil {
+		return Expected{}, err
+	}
 	exp := Expected{Accept: true}
 	for _, v := range versions {
 		exp.Times = append(exp.Times, v.Time)
@@ -667,15 +827,18 @@ func Expect(b *Built) (Expected, error) {
 			continue
 		}
 		seen[h] = true
-		c, err := repo.ReadCommit(h)
+		// the commit as go-git decodes the stored object (what every reader of the repository uses);
+		// git-bug's own ReadCommit is not consulted by the reference
+		c, err := raw.CommitObject(plumbing.NewHash(string(h)))
 		if err != nil {
 			return exp, err
 		}
-		T, err := commitTime(repo, h)
+		treeHash := repository.Hash(c.TreeHash.String())
+		T, err := commitTime(repo, treeHash)
 		if err != nil {
 			return exp, err
 		}
-		author, err := packAuthor(repo, c)
+		author, err := packAuthor(repo, treeHash)
 		if err != nil {
 			return exp, err
 		}
@@ -699,8 +862,8 @@ func Expect(b *Built) (Expected, error) {
 		}
 		if h == b.Tested {
 			exp.T, exp.InForce, exp.Valid = T, len(keys), valid
-			exp.Signed = c.Signature != nil
-			exp.Parents = len(c.Parents)
+			exp.Signed = c.PGPSignature != ""
+			exp.Parents = len(c.ParentHashes)
 			for _, v := range versions[1:] {
 				if v.Time == T {
 					exp.AtBound = true
@@ -710,7 +873,9 @@ func Expect(b *Built) (Expected, error) {
 		if !ok {
 			exp.Accept = false
 		}
-		stack = append(stack, c.Parents...)
+		for _, p := range c.ParentHashes {
+			stack = append(stack, repository.Hash(p.String()))
+		}
 	}
 	return exp, nil
 }
